@@ -94,7 +94,7 @@ namespace TR
       std::string problems;
    };
 
-   template< template< typename... > class Act >
+   template< template< typename... > class Act, template< typename... > class Ctl >
    TreeResult run_tree_act( const Cfg& c, In& in, long fuel_limit )
    {
       TreeResult t;
@@ -104,7 +104,7 @@ namespace TR
       top_A = 1;
       L.reset();
       try {
-         auto root = p::parse_tree::parse< node< 0 >, sel, Act, mon >( in );
+         auto root = p::parse_tree::parse< node< 0 >, sel, Act, Ctl >( in );
          r.kind = root ? Real::OK : Real::FAILED;
          r.pos = int( in.current() - g_begin );
          if( root ) {
@@ -144,11 +144,24 @@ namespace TR
       (void)c;
       return t;
    }
+   // the user control handed to parse_tree::parse: the monitor with a fixed-arity unwind() (the tree's own state must have been
+   // removed before the hooks are forwarded), or - ctl 6, only where every table rule is selected, i.e. forwards its
+   // hooks (an unselected table rule is never a leaf: its subs_t names every rule) - the must_if table A over the plain
+   // normal control, whose failure() raises from inside the tree's own hooks
    inline TreeResult run_tree( const Cfg& c, In& in, long fuel_limit )
    {
-      if( c.fam == 0 ) return run_tree_act< p::nothing >( c, in, fuel_limit );
-      if( c.fam == 5 ) return run_tree_act< act_bool >( c, in, fuel_limit );  // vetoing actions: a vetoed match must leave no node
-      return run_tree_act< act_apply >( c, in, fuel_limit );
+#if TREE_SEL == 0
+      if( c.ctl == 6 ) return run_tree_act< p::nothing, plain_errA >( c, in, fuel_limit );
+#endif
+      if( c.fam == 0 ) return run_tree_act< p::nothing, mon_fix >( c, in, fuel_limit );
+      if( c.fam == 5 ) return run_tree_act< act_bool, mon_fix >( c, in, fuel_limit );  // vetoing actions: a vetoed match must leave no node
+      return run_tree_act< act_apply, mon_fix >( c, in, fuel_limit );
+   }
+   // rules whose hooks parse_tree does not forward to the user control: unselected rules that are not leaves (documented
+   // behaviour of the tree control); every selected rule must see the whole protocol
+   inline bool hooks_optional( int rule, int kind )
+   {
+      return kind != RK_NODE || sel_kind( rule ) == 0;
    }
 
    // expected tree from the surviving derivation
